@@ -387,6 +387,9 @@ class Program:
                     return self.const_value(mm, val, depth + 1)
                 if kind == "class":
                     return obj
+        if isinstance(node, ast.Call) and (A.dotted(node.func) or "").split(".")[-1] in ("MappingProxyType", "dict", "OrderedDict") and len(node.args) == 1 and not node.keywords:
+            # a read-only / copied view of a table is the table
+            return self.const_value(m, node.args[0], depth + 1)
         if isinstance(node, ast.Call) and isinstance(node.func, ast.Name) and node.func.id in ("frozenset", "set", "tuple", "list") and len(node.args) <= 1 and not node.keywords:
             if not node.args:
                 return set() if node.func.id in ("frozenset", "set") else ()
